@@ -150,12 +150,60 @@ def _unvar(t: Term) -> Term:
     return t
 
 
+def _fuse_enumerate(t):
+    """``{i: y for i, y in enumerate(f(x) for x in D)}``  ->  ``{i: f(x) for i, x in enumerate(D)}`` (positions do not change under a map)"""
+    if t[0] not in ("comp", "dictcomp"):
+        return t
+    gens = t[3] if t[0] == "comp" else t[3]
+    for i, (dom, conds) in enumerate(gens):
+        if dom[0] == "call" and dom[1] == "enumerate" and len(dom[2]) == 1 and not dom[3]:
+            inner = _unvar(dom[2][0])
+            if inner[0] == "comp" and inner[1] in ("gen", "list") and len(inner[3]) == 1 and not inner[3][0][1]:
+                ib = [b for b in subterms(inner[2], lambda x: x[0] == "bound" and x[3] == show(inner[3][0][0]))]
+                if len(set(ib)) > 1:
+                    continue
+                new_dom = ("call", "enumerate", (inner[3][0][0],), ())
+                rest = [x for x in (t[1:3] if t[0] == "dictcomp" else (t[2],))] + list(conds) + [y for g in gens[i + 1:] for y in (g[0],) + tuple(g[1])]
+                bs = []
+                for b in subterms(tuple(rest), lambda x: x[0] == "bound" and isinstance(x[1], int) and x[2] == i):
+                    if b not in bs:
+                        bs.append(b)
+                if len(bs) != 1:
+                    continue
+                nb = (bs[0][0], bs[0][1], bs[0][2], show(new_dom))
+                img = subst(inner[2], {ib[0]: ("item", nb, 1)}) if ib else inner[2]
+
+                def rw(x):
+                    if not isinstance(x, tuple) or not x:
+                        return x
+                    if x == ("item", bs[0], 1):
+                        return img
+                    if x == bs[0]:
+                        return nb
+                    return tuple(rw(y) if isinstance(y, tuple) else y for y in x)
+                ngens = list(gens[:i]) + [(new_dom, tuple(rw(c) for c in conds))] + [(rw(g[0]), tuple(rw(c) for c in g[1])) for g in gens[i + 1:]]
+                if t[0] == "dictcomp":
+                    return _fuse_enumerate(("dictcomp", rw(t[1]), rw(t[2]), tuple(ngens)))
+                return _fuse_enumerate(("comp", t[1], rw(t[2]), tuple(ngens)))
+    return t
+
+
 def fuse_comprehensions(t):
+    if isinstance(t, tuple) and t and t[0] in ("comp", "dictcomp"):
+        t2 = _fuse_enumerate(t)
+        if t2 != t:
+            return fuse_comprehensions(t2)
+    return _fuse_comprehensions(t)
+
+
+def _fuse_comprehensions(t):
     """``[f(y) for y in [g(x) for x in D if c] if d]``  ->  ``[f(g(x)) for x in D if c if d(g(x))]`` (bottom-up, through local names of
     comprehension values).  A comprehension over a comprehension ranges over the inner domain."""
     if not isinstance(t, tuple) or not t:
         return t
     t = tuple(fuse_comprehensions(x) if isinstance(x, tuple) else x for x in t)
+    if t[0] in ("comp", "dictcomp"):
+        t = _fuse_enumerate(t)
     if t[0] == "comp" and len(t[3]) == 1:
         dom, conds = t[3][0]
         inner = _unvar(dom)
